@@ -18,6 +18,7 @@ import (
 	"github.com/ipfs/go-graphsync"
 	"github.com/ipfs/go-graphsync/ipldutil"
 	gsmsg "github.com/ipfs/go-graphsync/message"
+	"github.com/ipfs/go-graphsync/panics"
 	"github.com/ipfs/go-graphsync/responsemanager/hooks"
 	"github.com/ipfs/go-graphsync/responsemanager/responseassembler"
 )
@@ -57,23 +58,31 @@ type ResponseSignals struct {
 
 // QueryExecutor is responsible for performing individual requests by executing their traversals
 type QueryExecutor struct {
-	ctx         context.Context
-	manager     Manager
-	blockHooks  BlockHooks
-	updateHooks UpdateHooks
+	ctx          context.Context
+	manager      Manager
+	blockHooks   BlockHooks
+	updateHooks  UpdateHooks
+	panicHandler panics.PanicHandler
 }
 
-// New creates a new QueryExecutor
+// New creates a new QueryExecutor. An optional panic callback is told about
+// panics recovered while a response's task is executing.
 func New(ctx context.Context,
 	manager Manager,
 	blockHooks BlockHooks,
 	updateHooks UpdateHooks,
+	panicCallback ...panics.CallBackFn,
 ) *QueryExecutor {
+	var callback panics.CallBackFn
+	if len(panicCallback) > 0 {
+		callback = panicCallback[0]
+	}
 	qm := &QueryExecutor{
-		blockHooks:  blockHooks,
-		updateHooks: updateHooks,
-		manager:     manager,
-		ctx:         ctx,
+		blockHooks:   blockHooks,
+		updateHooks:  updateHooks,
+		manager:      manager,
+		ctx:          ctx,
+		panicHandler: panics.MakeHandler(callback),
 	}
 	return qm
 }
@@ -181,7 +190,14 @@ func (qe *QueryExecutor) checkForUpdates(
 	}
 }
 
-func (qe *QueryExecutor) runTraversal(ctx context.Context, p peer.ID, taskData ResponseTask) error {
+func (qe *QueryExecutor) runTraversal(ctx context.Context, p peer.ID, taskData ResponseTask) (err error) {
+	defer func() {
+		// block loads and hooks run user supplied code (storage, block and update hooks) on
+		// this worker; a panic there fails this response only, like one in the traversal
+		if panicErr := qe.panicHandler(recover()); panicErr != nil {
+			err = panicErr
+		}
+	}()
 	for {
 		traverser := taskData.Traverser
 		isComplete, err := traverser.IsComplete()
